@@ -1,6 +1,22 @@
 """Fragment descriptors for py2lean (tie T1).  One entry per generated Lean definition.
 Further descriptors are collected from tools/targets.d/*.py (each defines FILES with the same layout;
-entries for an existing generated module are appended to it)."""
+entries for an existing generated module are appended to it).
+
+Fields:  name (Lean definition), func (qualified Python function), params [(lean name, type)], ret (int | slice3 | unit | bool),
+  select   which statements:  ("after_guard", test)  the body after a leading `if test: return …`
+                              ("if_body", test) / ("orelse_of", test)  the arm of the `if` on `test` taken when it holds / does not
+                              ("if_else", test, tail)  the whole `if` statement on `test` (+ a synthetic trailing statement)
+                              ("between", start, end[, n])  top-level statements from the n-th `start` up to (excluding) `end`
+                              ("after", start, end)         the same, excluding the `start` statement itself
+                              ("guards_from", start)        the run of `if …: raise` guards that begins at `start`
+           A test is compared by MEANING (tools/py2lean.py: ckey — mirrored comparisons, commuted and/or, De Morgan; the
+           negated test selects the other arm); a statement anchor is `if <test>` (by meaning) or the beginning of the
+           statement's text, or a tuple of alternatives.
+  until    cut the selection before the first statement matching this anchor;  take: keep the first n;  tail: append this text
+  bind     Python expression (compared through ckey) -> parameter it stands for
+  consts   Python expression (compared through ckey) -> Python expression over the parameters that replaces it
+  kind="elt": the element of the comprehension over `iter` (text) that is the sole argument of `within`(...); its bound
+           variables are matched BY POSITION with the leading parameters (`target` only gives their number)."""
 INT, OPT, BOOL = "Int", "Option Int", "Bool"
 
 SL = "sparse/numba_backend/_slicing.py"
@@ -21,13 +37,13 @@ FILES = {
                  params=[("shape", INT), ("istart", INT), ("istop", INT), ("istep", INT)], ret="slice3",
                  note="slice branch"),
             dict(name="posifyInt", func="posify_index", select=("if_body", "isinstance(ind, Integral)"),
-                 consts={"math.isnan(shape)": ("False", "Prop")},
+                 consts={"math.isnan(shape)": "False"},
                  params=[("shape", INT), ("ind", INT)], ret="int", note="integer branch; shape is an int so isnan is False"),
             dict(name="clipSlice", func="clip_slice", select=("after_guard", "not isinstance(idx, slice)"),
                  bind={"idx.start": "istart", "idx.stop": "istop", "idx.step": "istep"},
                  params=[("istart", INT), ("istop", INT), ("istep", INT), ("dim", INT)], ret="slice3",
                  note="slice branch"),
-            dict(name="checkIndexInt", func="check_index", select=("elif_chain_from", "ind >= dimension"),
+            dict(name="checkIndexInt", func="check_index", select=("orelse_of", "not isinstance(ind, Integral)"),
                  params=[("ind", INT), ("dimension", INT)], ret="unit", note="integer branch"),
         ],
     },
@@ -41,11 +57,11 @@ FILES = {
     "Umath": {
         "file": UM,
         "targets": [
-            dict(name="bcastOk", kind="elt", func="_get_broadcast_shape",
+            dict(name="bcastOk", kind="elt", func="_get_broadcast_shape", within="all",
                  iter="zip(shape1[::-1], shape2[::-1], strict=False)", target="(l1, l2)",
                  params=[("l1", INT), ("l2", INT), ("is_result", BOOL)], ret="bool",
                  note="per-pair admissibility inside all(...)"),
-            dict(name="bcastDim", kind="elt", func="_get_broadcast_shape",
+            dict(name="bcastDim", kind="elt", func="_get_broadcast_shape", within="tuple",
                  iter="zip_longest(shape1[::-1], shape2[::-1], fillvalue=1)", target="(l1, l2)",
                  params=[("l1", INT), ("l2", INT)], ret="int", note="per-pair result extent"),
         ],
@@ -54,7 +70,7 @@ FILES = {
         "file": DK,
         "targets": [
             dict(name="dokSliceBounds", func="DOK._setitem", select=("if_body", "isinstance(ind, slice)"),
-                 take=2, tail="return slice(start, stop, step)",
+                 until="key_list_temp = ", tail="return slice(start, stop, step)",
                  bind={"ind.start": "istart", "ind.stop": "istop", "ind.step": "istep", "self.shape[i]": "dim"},
                  params=[("istart", OPT), ("istop", OPT), ("istep", OPT), ("dim", INT)], ret="slice3",
                  note="bounds of the slice loop; synthetic return of (start, stop, step)"),
